@@ -330,19 +330,28 @@ pub fn run(tier: Tier, seed: u64) -> i32 {
 
     // ---------------- world login: arbitrary proofs and seeds ----------------
     let mut world = 0u64;
-    for seedv in [0u32, 1, 0xFFFF_FFFF, 0xDEAD_BEEF] {
-        for proof in [[0u8; 20], [0xFF; 20], refmodel::ctr_array::<20>(seed, "c14-wp")] {
-            for key in key40s(seed, 1) {
-                for user in ["A", "0123456789ABCDEF", " "] {
-                    let u = ns(user);
-                    let r1 = catch(|| wow_srp::vanilla_header::ProofSeed::new().into_server_header_crypto(&u, key, proof, seedv).is_ok());
-                    let r2 = catch(|| wow_srp::tbc_header::ProofSeed::new().into_server_header_crypto(&u, key, proof, seedv).is_ok());
-                    let r3 = catch(|| wow_srp::wrath_header::ProofSeed::new().into_server_header_crypto(&u, key, proof, seedv).is_ok());
-                    let r4 = catch(|| wow_srp::wrath_header::ProofSeed::new().into_client_header_crypto(&u, key, seedv).0);
-                    world += 4;
-                    for (name, r) in [("vanilla", r1.map(|_| ())), ("tbc", r2.map(|_| ())), ("wrath", r3.map(|_| ())), ("wrath-client", r4.map(|_| ()))] {
-                        if let Err(m) = r {
-                            viol(&report, "world", &format!("{name}-panic"), json!({"user": user, "seed": seedv, "proof": hex(&proof)}), format!("world login panicked: {m}"));
+    // the peer chooses its seed knowing ours: every pair of {0, 1, 2^32-1, ...} incl. the peer ECHOING our own seed
+    // (our seed is pinned through the RNG script)
+    let wseeds = [0u32, 1, 0xFFFF_FFFF, 0xDEAD_BEEF, 0x8000_0000];
+    let zero_key = [0u8; 40];
+    for own in wseeds {
+        for seedv in wseeds {
+            for proof in [[0u8; 20], [0xFF; 20], refmodel::ctr_array::<20>(seed, "c14-wp")] {
+                for key in key40s(seed, 1).into_iter().chain([zero_key, [0xFF; 40]]) {
+                    for user in ["A", "0123456789ABCDEF", " ", "'\"\\"] {
+                        let u = ns(user);
+                        let sc = own.to_le_bytes();
+                        let r1 = with_script(&sc, || wow_srp::vanilla_header::ProofSeed::new().into_server_header_crypto(&u, key, proof, seedv).is_ok()).0;
+                        let r2 = with_script(&sc, || wow_srp::tbc_header::ProofSeed::new().into_server_header_crypto(&u, key, proof, seedv).is_ok()).0;
+                        let r3 = with_script(&sc, || wow_srp::wrath_header::ProofSeed::new().into_server_header_crypto(&u, key, proof, seedv).is_ok()).0;
+                        let r4 = with_script(&sc, || wow_srp::wrath_header::ProofSeed::new().into_client_header_crypto(&u, key, seedv).0).0;
+                        let r5 = with_script(&sc, || wow_srp::vanilla_header::ProofSeed::new().into_client_header_crypto(&u, key, seedv).0).0;
+                        let r6 = with_script(&sc, || wow_srp::tbc_header::ProofSeed::new().into_client_header_crypto(&u, key, seedv).0).0;
+                        world += 6;
+                        for (name, r) in [("vanilla", r1.map(|_| ())), ("tbc", r2.map(|_| ())), ("wrath", r3.map(|_| ())), ("wrath-client", r4.map(|_| ())), ("vanilla-client", r5.map(|_| ())), ("tbc-client", r6.map(|_| ()))] {
+                            if let Err(m) = r {
+                                viol(&report, "world", &format!("{name}-panic"), json!({"user": user, "own_seed": own, "peer_seed": seedv, "proof": hex(&proof), "session_key": hex(&key)}), format!("world login panicked: {m}"));
+                            }
                         }
                     }
                 }
